@@ -11,6 +11,7 @@ import (
 	"path/filepath"
 	"sort"
 	"strings"
+	"syscall"
 	"time"
 
 	"github.com/cloudwego/thriftgo/plugin"
@@ -40,14 +41,15 @@ type pScript struct {
 	Raw      string   `json:"raw"`
 	SleepMs  int      `json:"sleepMs"`
 	Keep     int      `json:"keep"`
+	Sigint   string   `json:"sigint"`
 }
 
 type pPlugin struct {
-	Variant string     `json:"variant"` // thriftgo version the plugin binary's build info records ("" = the plain harness build, v0.0.0)
-	NoID   bool        `json:"noId"` // no id=<k> option: with empty Opts the plugin is started without any option
-	ID     string      `json:"id"`
-	Opts   [][2]string `json:"opts"` // key, value; value "\x00" = bare key
-	Script pScript     `json:"script"`
+	Variant string      `json:"variant"` // thriftgo version the plugin binary's build info records ("" = the plain harness build, v0.0.0)
+	NoID    bool        `json:"noId"`    // no id=<k> option: with empty Opts the plugin is started without any option
+	ID      string      `json:"id"`
+	Opts    [][2]string `json:"opts"` // key, value; value "\x00" = bare key
+	Script  pScript     `json:"script"`
 }
 
 type scenario struct {
@@ -56,8 +58,9 @@ type scenario struct {
 	Main      string            `json:"main"`
 	Gen       []string          `json:"gen"` // -g arguments
 	Recursive bool              `json:"recursive"`
-	LimitMs   int               `json:"limitMs"` // -1: flag not given
+	LimitMs   int               `json:"limitMs"`  // -1: flag not given
 	Compress  bool              `json:"compress"` // THRIFTGO_PLUGIN_COMPRESS_INCLUDE=1 in thriftgo's environment
+	Merged    bool              `json:"merged"`   // plugins patch each other's files: the output is compared as one Feed history
 	OwnFile   bool              `json:"ownFile"`  // plugins emit equal file names: files are told apart by the marker FILE-OF-<id>
 	Plugins   []pPlugin         `json:"plugins"`
 }
@@ -112,9 +115,9 @@ func (p *pPlugin) wantParams() []string {
 const marker = "@@thriftgo_insertion_point(%s)"
 
 var diamond = map[string]string{
-	"main.thrift": "include \"a.thrift\"\ninclude \"b.thrift\"\nnamespace go c11.main\nstruct M { 1: a.A x, 2: b.B y }\nservice Svc { a.A get(1: b.B q) }\n",
-	"a.thrift":    "include \"sub/c.thrift\"\nnamespace go c11.a\nstruct A { 1: c.C c, 2: list<i32> l = [1, 2] }\n",
-	"b.thrift":    "include \"sub/c.thrift\"\nnamespace go c11.b\nstruct B { 1: optional c.C c, 2: c.E e = c.E.X }\n",
+	"main.thrift":  "include \"a.thrift\"\ninclude \"b.thrift\"\nnamespace go c11.main\nstruct M { 1: a.A x, 2: b.B y }\nservice Svc { a.A get(1: b.B q) }\n",
+	"a.thrift":     "include \"sub/c.thrift\"\nnamespace go c11.a\nstruct A { 1: c.C c, 2: list<i32> l = [1, 2] }\n",
+	"b.thrift":     "include \"sub/c.thrift\"\nnamespace go c11.b\nstruct B { 1: optional c.C c, 2: c.E e = c.E.X }\n",
 	"sub/c.thrift": "namespace go c11.c\nenum E { X = 1, Y }\nstruct C { 1: string s (k = \"v\") }\nconst i32 K = 5\n",
 }
 
@@ -183,33 +186,39 @@ func (c pClass) fault() bool {
 }
 
 // expectedFiles: what a faultless script must leave in the output directory.
-func expectedFiles(s *pScript) map[string]string {
+func expectedFiles(s *pScript) map[string]string { return expectedFilesAll([]*pScript{s}) }
+
+// expectedFilesAll: several plugins in command-line order (one Feed per plugin: a nameless patch goes to the
+// last named file of the SAME plugin, a named patch with an insertion point to the file of that name).
+func expectedFilesAll(scripts []*pScript) map[string]string {
 	type acc struct {
 		content string
 		patches map[string]string
 		order   []string
 	}
 	files := map[string]*acc{}
-	last := ""
-	for _, f := range s.Files {
-		if f.Name != nil && (f.Point == nil || files[*f.Name] == nil) {
-			files[*f.Name] = &acc{content: f.Content, patches: map[string]string{}}
-			last = *f.Name
-			continue
+	for _, s := range scripts {
+		last := ""
+		for _, f := range s.Files {
+			if f.Name != nil && (f.Point == nil || files[*f.Name] == nil) {
+				files[*f.Name] = &acc{content: f.Content, patches: map[string]string{}}
+				last = *f.Name
+				continue
+			}
+			tgt := last
+			if f.Name != nil {
+				tgt = *f.Name
+				last = tgt
+			}
+			p := ""
+			if f.Point != nil {
+				p = *f.Point
+			}
+			if files[tgt] == nil {
+				continue // a patch without a target file: the run must fail, nothing is expected
+			}
+			files[tgt].patches[p] += f.Content
 		}
-		tgt := last
-		if f.Name != nil {
-			tgt = *f.Name
-			last = tgt
-		}
-		p := ""
-		if f.Point != nil {
-			p = *f.Point
-		}
-		if files[tgt] == nil {
-			continue // a patch without a target file: the run must fail, nothing is expected
-		}
-		files[tgt].patches[p] += f.Content
 	}
 	out := map[string]string{}
 	for n, a := range files {
@@ -283,7 +292,13 @@ func (h *harness) runScenario(sc *scenario) (*pObserved, string, error) {
 	defer cancel()
 	cmd := exec.CommandContext(ctx, h.thriftgo, args...)
 	cmd.Dir = h.work
-	cmd.Env = append(os.Environ(), "C11_SCRIPT="+string(js), "C11_RECORD="+record, "C11_REPO="+h.repo, "THRIFTGO_PLUGIN_COMPRESS_INCLUDE="+map[bool]string{true: "1", false: ""}[sc.Compress])
+	sigint := ""
+	for _, p := range sc.Plugins {
+		if p.Script.Sigint != "" {
+			sigint = p.Script.Sigint
+		}
+	}
+	cmd.Env = append(os.Environ(), "C11_SIGINT="+sigint, "C11_SCRIPT="+string(js), "C11_RECORD="+record, "C11_REPO="+h.repo, "THRIFTGO_PLUGIN_COMPRESS_INCLUDE="+map[bool]string{true: "1", false: ""}[sc.Compress])
 	var stdout, stderr bytes.Buffer
 	cmd.Stdout, cmd.Stderr = &stdout, &stderr
 	t0 := time.Now()
@@ -359,6 +374,13 @@ func (h *harness) checkScenario(sc *scenario) {
 		panic(fmt.Sprintf("cannot run thriftgo: %v", err))
 	}
 	defer os.RemoveAll(filepath.Join(h.work, dir))
+	defer func() { // never leave a plugin behind
+		for _, r := range obs.records {
+			if pidAlive(r.Pid) {
+				syscall.Kill(r.Pid, syscall.SIGKILL)
+			}
+		}
+	}()
 	failed := false
 	type mcase struct{ op, impl string }
 	var cases []mcase
@@ -417,6 +439,24 @@ func (h *harness) checkScenario(sc *scenario) {
 				fail("plugin fault ("+describe(cl)+") but thriftgo exited 0", "non-zero exit status", fmt.Sprintf("exit 0; stderr: %s", tail(obs.stderr, 400)))
 			}
 			cases = append(cases, mcase{op, impl})
+			// the warnings of a failing plugin are shown all the same: those of its answer, or the dump of
+			// its stdout/stderr when it did not exit with status 0
+			wantShown := 0
+			switch {
+			case cl.run != "x0":
+				wantShown = 2
+			case cl.decoded:
+				wantShown = cl.nwarn
+				if cl.stderr {
+					wantShown++
+				}
+			}
+			if obs.exit != 0 && shown != wantShown {
+				fail("plugin fault ("+describe(cl)+"): its warnings / output dump are not shown", wantShown, fmt.Sprintf("%d; stderr: %s", shown, tail(obs.stderr, 400)))
+			}
+			if cl.run != "x0" && cl.run != "kill" && p.Script.Stderr != "" && !strings.Contains(obs.stderr, strings.TrimSpace(p.Script.Stderr)) {
+				fail("plugin fault ("+describe(cl)+"): what the plugin wrote to stderr is not shown", p.Script.Stderr, tail(obs.stderr, 400))
+			}
 			// nothing of the failed run may be written
 			for n := range exp {
 				if _, err := os.Stat(filepath.Join(obs.outDir, n)); err == nil {
@@ -424,11 +464,12 @@ func (h *harness) checkScenario(sc *scenario) {
 				}
 			}
 			if cl.run == "kill" {
-				if obs.elapsed > time.Duration(sc.LimitMs)*time.Millisecond+8*time.Second {
-					fail("plugin exceeded the time limit but thriftgo waited", fmt.Sprintf("return shortly after %dms", sc.LimitMs), obs.elapsed.String())
+				// 3 s of grace plus what a faultless run of thriftgo costs on this machine right now
+				if lim := time.Duration(sc.LimitMs)*time.Millisecond + 3*time.Second + h.baseline; obs.elapsed > lim {
+					fail("plugin exceeded the time limit but thriftgo waited", fmt.Sprintf("return within %s", lim.Round(100*time.Millisecond)), obs.elapsed.Round(100*time.Millisecond).String())
 				}
 				if i < len(obs.records) && pidAlive(obs.records[i].Pid) {
-					fail("plugin still running after the time limit", "process killed", obs.records[i].Pid)
+					fail("plugin still running after the time limit", "process killed", "alive")
 				}
 			}
 		} else if laterFault(sc, i) {
@@ -446,8 +487,10 @@ func (h *harness) checkScenario(sc *scenario) {
 					fail("a later plugin failed but a file was written", "no output", n)
 				}
 			}
-		} else if sc.OwnFile {
-			h.ownFileCheck(obs.outDir, p, fail)
+		} else if sc.OwnFile || sc.Merged {
+			if sc.OwnFile {
+				h.ownFileCheck(obs.outDir, p, fail)
+			}
 			want := cl.nwarn
 			if cl.stderr {
 				want++
@@ -484,6 +527,29 @@ func (h *harness) checkScenario(sc *scenario) {
 			}
 			if shown != want {
 				fail("plugin warnings not all shown", want, fmt.Sprintf("%d; stderr: %s", shown, tail(obs.stderr, 400)))
+			}
+		}
+	}
+	if !anyFault && !failed {
+		slow := false
+		for i := range sc.Plugins {
+			slow = slow || sc.Plugins[i].Script.Mode == "sleep"
+		}
+		if !slow && obs.elapsed > h.baseline {
+			h.baseline = obs.elapsed
+		}
+	}
+	if sc.Merged && !anyFault {
+		var scripts []*pScript
+		for i := range sc.Plugins {
+			scripts = append(scripts, &sc.Plugins[i].Script)
+		}
+		for n, want := range expectedFilesAll(scripts) {
+			got, err := os.ReadFile(filepath.Join(obs.outDir, n))
+			if err != nil {
+				fail("scripted file missing: "+n, want, err.Error())
+			} else if string(got) != want {
+				fail("patches are not all where their insertion points are: "+n, want, string(got))
 			}
 		}
 	}
@@ -687,9 +753,40 @@ func (h *harness) catalogue() []*scenario {
 	add("ok-files-patches-warnings", func(s *scenario) {
 		s.Plugins = one(pScript{Files: okFiles("p0"), Warnings: []string{"C11W-p0-1", "C11W-p0-2 with spaces"}}, [2]string{"a", "1"}, [2]string{"flag", "\x00"}, [2]string{"v", "x=y:z"})
 	})
-	add("timeout-killed", func(s *scenario) {
-		s.LimitMs = 1000
-		s.Plugins = one(pScript{Mode: "sleep", SleepMs: 40000, Files: okFiles("p0")})
+	for _, mode := range []string{"", "ignore", "handle"} {
+		mode := mode
+		name := mode
+		if name == "" {
+			name = "default"
+		}
+		// the plugin sleeps far beyond the limit; whatever it does with SIGINT it must be gone afterwards
+		add("timeout-killed-sigint-"+name, func(s *scenario) {
+			s.LimitMs = 300
+			s.Plugins = one(pScript{Mode: "sleep", SleepMs: 12000, Sigint: mode, Files: okFiles("p0")})
+		})
+	}
+	// insertion-point names outside the class [$.0-9a-zA-Z_] of the file manager's scan, named and nameless patches
+	add("insertion-points-with-odd-names", func(s *scenario) {
+		s.Merged = true
+		pts := []string{"svc-Echo.methods", "pkg/demo.init", "handlers-v2/extra_", "点.α", "plain.one"}
+		content := "FILE-OF-p0\n"
+		for _, pt := range pts {
+			content += "// " + fmt.Sprintf(marker, pt) + "\n"
+		}
+		content += "end\n"
+		scaffold := pScript{Files: []pFile{{Name: sp("reg/registry.txt"), Content: content},
+			{Point: sp(pts[0]), Content: "NAMELESS-" + pts[0] + "\n"}, {Point: sp(pts[3]), Content: "NAMELESS-unicode\n"}}}
+		var filler, third pScript
+		for _, pt := range pts {
+			filler.Files = append(filler.Files, pFile{Name: sp("reg/registry.txt"), Point: sp(pt), Content: "FILLER-" + pt + "\n"})
+		}
+		third.Files = []pFile{{Name: sp("reg/other.txt"), Content: "x " + fmt.Sprintf(marker, "a-b") + " y\n"}, {Point: sp("a-b"), Content: "[ab]"},
+			{Name: sp("reg/registry.txt"), Point: sp(pts[1]), Content: "THIRD-" + pts[1] + "\n"}}
+		s.Plugins = []pPlugin{{ID: "p0", Script: scaffold}, {ID: "p1", Script: filler}, {ID: "p2", Script: third}}
+	})
+	// a failing answer that also carries warnings; a failing exit status with diagnostics on stderr
+	add("response-error-with-warnings-and-stderr", func(s *scenario) {
+		s.Plugins = one(pScript{Error: sp("plugin says no"), Warnings: []string{"C11W-p0-a", "C11W-p0-b"}, Stderr: "diagnostics of p0\n"})
 	})
 	add("exit-3-with-valid-response", func(s *scenario) { s.Plugins = one(pScript{Exit: 3, Files: okFiles("p0"), Stderr: "boom\n"}) })
 	add("partial-stdout", func(s *scenario) { s.Plugins = one(pScript{Mode: "partial", Keep: 9, Files: okFiles("p0")}) })
@@ -809,7 +906,8 @@ func (h *harness) randomScenario(i int) *scenario {
 	}
 	if i%8 == 0 { // a run into the time limit (slow: one in eight), alone so that nothing else races the 1 s limit
 		s.LimitMs = 1000
-		s.Plugins = []pPlugin{{ID: "p0", Script: pScript{Mode: "sleep", SleepMs: 40000, Files: okFiles("p0")}}}
+		s.LimitMs = 300
+		s.Plugins = []pPlugin{{ID: "p0", Script: pScript{Mode: "sleep", SleepMs: 12000, Sigint: r.Pick([]string{"", "ignore", "handle"}), Files: okFiles("p0")}}}
 		return s
 	}
 	if r.Chance(20) {
